@@ -67,6 +67,8 @@ class Report:
 
     def floor(self, rule, minimum, what):
         got = self.instances.get(rule, 0)
+        if got < minimum and any(f.rule == rule for f in self.findings):
+            return      # the rule stopped at its first finding: it is not blind, it fired
         if got < minimum:
             self.errors.append('%s: only %d %s found, at least %d were confirmed by hand on the pinned tree '
                                '(anchor moved or analyser blind)' % (rule, got, what, minimum))
